@@ -106,6 +106,9 @@ func runC09(c *Ctx) {
 			return
 		}
 		for k, a := range PArgs(cc) {
+			if a == nil {
+				continue
+			}
 			if PathOf(a) == reqHdr && k < len(g.Params) {
 				pk := g.Params[k]
 				classifyIn(g, func(v ssa.Value) bool { return rootIs(v, pk) }, func(v ssa.Value) ssa.Value {
